@@ -15,12 +15,13 @@ CONFIG_ONLY = ['chg_value', 'chg_value', 'chg_value_deep', 'retag', 'chg_obj_arg
 
 
 @st.composite
-def variants_of(draw, base, n):
+def variants_of(draw, base, n, kinds=None, force_plain=False):
     out = [base]
+    base_kinds = kinds or CONFIG_ONLY
     for _ in range(n):
         src = draw(st.sampled_from(out))
-        kinds = CONFIG_ONLY
-        if src.get('context') and draw(st.integers(0, 2)) == 0:
+        kinds = base_kinds
+        if not force_plain and src.get('context') and draw(st.integers(0, 2)) == 0:
             # another context layer on top of the existing ones (often for a namespace they already address): the
             # caller-owned layer objects are shared by the chains of both variants
             kinds = ['chg_context']
@@ -92,8 +93,17 @@ def histories(draw, kinds_weighted, max_ops=20, n_variants=(1, 3), gen_kw=None, 
         except model.ModelError:
             nm = False
     if nm:
-        nv = 1
-    variants = draw(variants_of(base, nv - 1)) if nv > 1 else [base]
+        # name mode needs unique config names: every file of variant i is renamed to `<name>.nm<i>` (results of the
+        # variants then sit side by side in the task directories, as `cfg.json`, `cfg.nm1.json`, ...); no contexts
+        nv = min(nv, 2)
+        variants = draw(variants_of(base, nv - 1, kinds=[k for k in CONFIG_ONLY if k not in ('chg_context', 'to_context')],
+                                    force_plain=True)) if nv > 1 else [base]
+        for i, v in enumerate(variants):
+            if i:
+                for f in v['files']:
+                    f['name'] = f'{f["name"]}.nm{i}'
+    else:
+        variants = draw(variants_of(base, nv - 1)) if nv > 1 else [base]
     ops = [{'op': 'chain', 'variant': 0, 'pm': not nm}]
     opst = _op_strategy(kinds_weighted, len(variants))
     n = draw(st.integers(3, max_ops))
